@@ -220,4 +220,15 @@ Section M.
     destruct (run_budget' n sched _ _ _ Hn Hb ltac:(rewrite Hp; lia) Hr ltac:(rewrite Hs; lia)) as (_ & _ & _ & I).
     rewrite Hp, Hs in I. lia.
   Qed.
+
+  Lemma budget_fresh_lemma : forall n s sched s' tr,
+    1 <= n ->
+    run (start (set_max_execution_steps new_thread n) s) sched = (s', tr) ->
+    nheads tr < two64 ->
+    ndisp tr < n.
+  Proof.
+    intros n s sched s' tr Hn Hr Hw.
+    destruct (budget_dispatch_lemma n (set_max_execution_steps new_thread n) s sched s' tr Hn eq_refl eq_refl Hr) as [H|H];
+      cbn in *; lia.
+  Qed.
 End M.
